@@ -75,7 +75,7 @@ def run(prop, tier, seed, replay=None):
     nolog = build_nolog()
     # 1. specification: API histories, and purity of the sampling machine
     consts = (dict(Sids={1, 2, 3}, Origins={1, 2}, Args={1, 2}, Threads={1, 2}, Blobs={1}, Digests={1, 2}) if tier == "quick" else
-              dict(Sids={1, 2, 3, 4}, Origins={1, 2}, Args={1, 2}, Threads={1, 2, 3}, Blobs={1, 2}, Digests={1, 2}))
+              dict(Sids={1, 2, 3}, Origins={1, 2}, Args={1, 2}, Threads={1, 2, 3}, Blobs={1}, Digests={1, 2}))
     cfg = core.cfg_text(spec="ASpec", constants=consts, invariants=["ATypeOK", "MemoSound", "RoundTrip"], properties=["Immutable", "MemoStable"])
     r = core.tlc("MC_Api", cfg, "mc_api", wd, workers=12, timeout=900 if tier == "quick" else 10800)
     if r.violated:
